@@ -47,9 +47,18 @@ Record XInv (T : list path) (w : world) : Prop := {
   x_keys : NoDup (ckeys (w_bd w));
   x_pos : forall x, cnt_get (bd_counts (w_bd w)) x <> Some 0;
   x_count : forall x, cval (w_bd w) x = nk (w_bd w) x + nt T x;
-  x_cdir : forall x, in_counts (w_bd w) x = true -> isdir (w_fs w) x = true \/ In x T;
-  x_tgt : forall t, In t T -> t <> [] /\ isdir (w_fs w) t = false /\
-                              mem_path t (bd_removed_files (w_bd w)) = false;
+  (* a reserved path is a directory, or a live target, or absent *)
+  x_cdir : forall x, in_counts (w_bd w) x = true ->
+           isdir (w_fs w) x = true \/ In x T \/ lexists (w_fs w) x = false;
+  (* a reserved path that this build did not create is a directory *)
+  x_ncdir : forall x, in_counts (w_bd w) x = true -> mem_path x (bd_created (w_bd w)) = false ->
+            isdir (w_fs w) x = true;
+  (* a live target is not recorded as previous output; if it has become a directory (made for
+     a target below it) it is reserved and created, or dead *)
+  x_tgt : forall t, In t T -> t <> [] /\ mem_path t (bd_removed_files (w_bd w)) = false /\
+          (isdir (w_fs w) t = true ->
+           (in_counts (w_bd w) t = true /\ mem_path t (bd_created (w_bd w)) = true) \/
+           (in_counts (w_bd w) t = false /\ dead w t = true));
   x_kids : forall x n, mem_path x (bd_created (w_bd w)) = true -> lexists (w_fs w) (n :: x) = true ->
            in_counts (w_bd w) (n :: x) = true \/ In (n :: x) T \/ invis w (n :: x) = true;
   x_cc : forall x n, mem_path x (bd_created (w_bd w)) = true -> in_counts (w_bd w) (n :: x) = true ->
